@@ -375,9 +375,47 @@ func run(c *runner.Ctx) {
 			}
 		}
 	}
+	// the same sequences (up to length 4) under two clause separators chosen by the caller
+	for _, sp := range []string{" | ", "\t"} {
+		seqSep = sp
+		c.Space(fmt.Sprintf("extractor-sequences/separator=%q", sp))
+		for total := 1; total <= 4; total++ {
+			for g := 0; g <= total && g <= 2; g++ {
+				k := total - g
+				n := 1
+				for i := 0; i < k; i++ {
+					n *= len(kinds)
+				}
+				for x := 0; x < n; x++ {
+					if !c.Take() {
+						continue
+					}
+					seq := make([]byte, k)
+					y := x
+					for i := k - 1; i >= 0; i-- {
+						seq[i] = kinds[y%len(kinds)]
+						y /= len(kinds)
+					}
+					runSeq(c, seq, g)
+				}
+			}
+		}
+	}
+	seqSep = ""
 }
 
+// seqSep, when set, is installed as the clause separator (the exported ErrEndFlag) for the validation and the
+// extraction of one sequence.
+var seqSep string
+
 func runSeq(c *runner.Ctx, seq []byte, groups int) {
+	sep := "; "
+	if seqSep != "" {
+		old := valid.ErrEndFlag
+		valid.ErrEndFlag = seqSep
+		defer func() { valid.ErrEndFlag = old }()
+		sep = seqSep
+	}
 	var fields []reflect.StructField
 	var wantExplain []string
 	strT := reflect.TypeOf("")
@@ -398,14 +436,23 @@ func runSeq(c *runner.Ctx, seq []byte, groups int) {
 		}
 		fields = append(fields, reflect.StructField{Name: fmt.Sprintf("F%d", i), Type: strT, Tag: reflect.StructTag(`valid:"` + tag + `"`)})
 	}
+	var unequal []int
 	for gi := 0; gi < groups; gi++ {
-		for j := 0; j < 2; j++ {
-			fields = append(fields, reflect.StructField{Name: fmt.Sprintf("G%d%c", gi, 'a'+j), Type: strT, Tag: reflect.StructTag(fmt.Sprintf(`valid:"either=%d"`, gi+1))})
+		rule, text := "either", "they shouldn't all be empty"
+		if gi == 1 {
+			rule, text = "botheq", "they should be equal"
+			unequal = append(unequal, len(fields))
 		}
-		wantExplain = append(wantExplain, "they shouldn't all be empty")
+		for j := 0; j < 2; j++ {
+			fields = append(fields, reflect.StructField{Name: fmt.Sprintf("G%d%c", gi, 'a'+j), Type: strT, Tag: reflect.StructTag(fmt.Sprintf(`valid:"%s=%d"`, rule, gi+1))})
+		}
+		wantExplain = append(wantExplain, text)
 	}
 	st := reflect.StructOf(fields)
 	p := reflect.New(st)
+	for _, fi := range unequal {
+		p.Elem().Field(fi).SetString("x")
+	}
 	var err error
 	pan, msg, site := runner.Guard(func() { err = valid.Struct(p.Interface()) })
 	mixed := 0
@@ -432,7 +479,8 @@ func runSeq(c *runner.Ctx, seq []byte, groups int) {
 		return
 	}
 	det["error"] = err.Error()
-	cls := errparse.Parse(err.Error())
+	det["separator"] = sep
+	cls := errparse.Parse(strings.ReplaceAll(err.Error(), sep, "; "))
 	if len(cls) != len(seq)+groups {
 		c.Violation("sequence-not-realised", det)
 		return
@@ -454,7 +502,18 @@ func runSeq(c *runner.Ctx, seq []byte, groups int) {
 	if desc[0] == 'U' {
 		sig = "sequence/unlabelled-first"
 	}
-	checkExtractor(c, err.Error(), strings.Join(wantExplain, "; "), sig, det)
+	// group clauses come in no particular order (the library keeps groups in a Go map)
+	if groups == 2 && strings.Index(err.Error(), "they should be equal") < strings.Index(err.Error(), "they shouldn't all be empty") {
+		n := len(wantExplain)
+		wantExplain[n-2], wantExplain[n-1] = wantExplain[n-1], wantExplain[n-2]
+	}
+	if seqSep != "" {
+		sig += "/other-separator"
+		if strings.HasSuffix(err.Error(), "; ") || strings.HasSuffix(err.Error(), sep) {
+			c.Violation("trailing-separator/other-separator", det)
+		}
+	}
+	checkExtractor(c, err.Error(), strings.Join(wantExplain, sep), sig, det)
 	c.Outcome("seq-checked")
 	c.Sample(func() interface{} { return map[string]interface{}{"clause_kinds": desc, "error": err.Error()} })
 }
